@@ -171,6 +171,38 @@ WithinExact(gn, gd, tn, td, r) ==
   /\ lo * lo * r[2] <= r[1] * dd * dd
   /\ r[1] * dd * dd <= hi * hi * r[2]
 
+\* ------------------------------------------------------------------ observation predicates of the big-integer tier
+\* (all ordinates of one observation - inputs and outputs - are scaled by a common power of two to integers;
+\* the predicates are invariant under that scaling because the tolerance is scaled too)
+\* @type: Int => Int;
+Pow2(k) == 2^k
+\* |p - X| <= sc*2^-30 + 2^-45 * l1*l2*(l1+l2)/|den| per ordinate, X = <<xn, yn, den>> the exact crossing point:
+\* a forward-error bound of the exact formula (condition number l1*l2/|den|), an upper limit, not a fit
+\* @type: (Seq(Int), Seq(Int), Int, Int) => Bool;
+NearCross(p, X, sc, K) ==
+  LET ad == Abs(X[3]) IN
+  /\ Abs(p[1] * X[3] - X[1]) * Pow2(45) <= Pow2(15) * sc * ad + K
+  /\ Abs(p[2] * X[3] - X[2]) * Pow2(45) <= Pow2(15) * sc * ad + K
+\* @type: (Seq(Int), Seq(Int)) => Int;
+LInf(a, b) == Max2(Abs(b[1] - a[1]), Abs(b[2] - a[2]))
+\* what the robust intersector may answer for the non-degenerate segments a-b, c-d: t = class, ps = points
+\* @type: (Seq(Int), Seq(Int), Seq(Int), Seq(Int), Str, Seq(Seq(Int)), Int) => Bool;
+SegSegOK(a, b, c, d, t, ps, sc) ==
+  LET k == SegSegClass(a, b, c, d)  sh == SharedEnds(a, b, c, d)
+      both == sh \cap {<<a[1], a[2]>>, <<b[1], b[2]>>} \cap {<<c[1], c[2]>>, <<d[1], d[2]>>}
+      l1 == LInf(a, b)  l2 == LInf(c, d) IN
+  /\ t = k
+  /\ IF k = "none" THEN Len(ps) = 0
+     ELSE IF k = "overlap"
+          THEN Len(ps) = 2 /\ <<ps[1][1], ps[1][2]>> \in sh /\ <<ps[2][1], ps[2][2]>> \in sh /\ ~SameXY(ps[1], ps[2])
+     ELSE /\ Len(ps) = 1
+          /\ IF both # {} THEN <<ps[1][1], ps[1][2]>> \in both                      \* a common endpoint: exactly that point
+             ELSE IF sh # {} THEN \E e \in sh : NearCross(ps[1], <<e[1], e[2], 1>>, sc, 0)
+             ELSE NearCross(ps[1], CrossPt(a, b, c, d), sc, l1 * l2 * (l1 + l2))
+\* got (scaled) is within tn/td of the square root of the rational r
+\* @type: (Int, Int, Int, Seq(Int)) => Bool;
+DistExactOK(got, tn, td, r) == WithinExact(got, 1, tn, td, r)
+
 \* ------------------------------------------------------------------ C20: Douglas-Peucker
 \* d <= threshold^2 = T2n/T2d
 \* @type: (Seq(Int), Int, Int) => Bool;
